@@ -149,6 +149,19 @@ def prun (reg : Registry) (s : PState) : List Item → PState × Option PErr
     | (s', none) => prun reg s' rest
     | (s', some e) => (s', some e)
 
+/-- A push parser whose owner catches the error of a refused event and keeps feeding: the refused
+event is skipped, everything else goes on as before; any other error ends it. Returns the errors
+that were raised, in order. -/
+def prunResilient (reg : Registry) (s : PState) : List Item → PState × List PErr
+  | [] => (s, [])
+  | it :: rest =>
+    match pstep reg s it with
+    | (s', none) => prunResilient reg s' rest
+    | (s', some .eventValidation) =>
+      let r := prunResilient reg s' rest
+      (r.1, .eventValidation :: r.2)
+    | (s', some e) => (s', [e])
+
 /-- A whole document: the children, then the root's end tag where the version is checked. -/
 def parseDoc (reg : Registry) (items : List Item) (versionOk : Bool) : PState × Option PErr :=
   match prun reg {} items with
